@@ -38,7 +38,7 @@ func init() {
 func runC03All(c *Ctx) {
 	runC03(c)
 	c.importObls("C13", runC13, "store/", func(k string) bool {
-		return strings.HasPrefix(k, "exact-set/") || strings.HasPrefix(k, "gate/known-type") || strings.HasPrefix(k, "gate/lstat") || strings.HasPrefix(k, "gate/is-directory") || strings.HasPrefix(k, "gate/not-symlink") || strings.HasPrefix(k, "anchor")
+		return strings.HasPrefix(k, "exact-set/") || strings.HasPrefix(k, "gate/known-type") || strings.HasPrefix(k, "gate/lstat") || strings.HasPrefix(k, "gate/is-directory") || strings.HasPrefix(k, "gate/not-symlink") || strings.HasPrefix(k, "entry/") || strings.HasPrefix(k, "anchor")
 	})
 	c.importObls("C08", runC08, "applicable/", func(k string) bool {
 		for _, p := range []string{"oci/anchor", "oci/loop", "oci/no-early-exit", "oci/selection-predicate", "oci/precedence", "blob/by-name", "blob/global", "blob/not-found/"} {
